@@ -3,12 +3,15 @@ package props
 import (
 	"bytes"
 	"context"
+	"crypto/tls"
 	"encoding/base64"
 	"errors"
 	"fmt"
 	"io"
 	"net"
 	"net/http"
+	"net/http/httptrace"
+	"net/textproto"
 	"net/url"
 	"strings"
 	"sync"
@@ -35,7 +38,7 @@ func init() {
 			return 60000
 		},
 		Run:      runC14,
-		Required: []string{"requests_parsed", "replies_accepted", "replies_refused", "refused_before_network", "keys_checked_distinct", "dialers_with_cookie_jar", "refusals_with_a_fault_inside_the_body"},
+		Required: []string{"requests_parsed", "replies_accepted", "replies_refused", "refused_before_network", "keys_checked_distinct", "dialers_with_cookie_jar", "refusals_with_a_fault_inside_the_body", "servers_selecting_a_subprotocol_offered_through_the_caller_header"},
 		Assumptions: []string{
 			"caller header maps use canonical keys (the http.Header contract)",
 			"replies whose Upgrade/Connection lists contain the token only inside a malformed line, or with duplicate Accept lines, are UNSPECIFIED and only executed",
@@ -61,6 +64,7 @@ type c14Case struct {
 	BadURL    string              `json:"bad_url,omitempty"`
 	Reply     c14Reply            `json:"reply"`
 	Jar       bool                `json:"cookie_jar,omitempty"` // Dialer.Jar holds a cookie for the URL
+	Trace     bool                `json:"httptrace_hooks,omitempty"`
 }
 
 // fixedJar is a cookie jar that always offers one cookie and records what it is given.
@@ -164,7 +168,7 @@ func runC14(ctx *core.Ctx, out *core.Out) {
 	cs := c14Case{Hdr: map[string][]string{}}
 	// ---- URL
 	scheme := "ws"
-	host := []string{"example.com", "example.com:8080", "EXAMPLE.org", "10.1.2.3", "10.1.2.3:81", "[2001:db8::7]", "[2001:db8::7]:9000", "localhost:80", "a-b.c.example"}[r.Intn(9)]
+	host := []string{"example.com", "example.com:8080", "EXAMPLE.org", "10.1.2.3", "10.1.2.3:81", "[2001:db8::7]", "[2001:db8::7]:9000", "localhost:80", "a-b.c.example", "[2001:db8::7]:80", "[::1]:80", "example.com:443"}[r.Intn(12)]
 	path := []string{"", "/", "/a", "/a/b%20c", "/a%2Fb", "/~user/x.y", "/a;b=c", "/%E4%B8%96", "/a//b", "/ws/"}[r.Intn(10)]
 	query := []string{"", "", "x=1", "a=b&c=d%26e", "q=%20+", "x", "a=1&a=2"}[r.Intn(7)]
 	frag := []string{"", "", "#frag", "#a/b?c"}[r.Intn(4)]
@@ -194,6 +198,7 @@ func runC14(ctx *core.Ctx, out *core.Out) {
 		}
 	}
 	cs.Jar = r.Chance(1, 4)
+	cs.Trace = r.Chance(1, 4)
 	if r.Chance(1, 3) {
 		cs.Hdr["X-Custom"] = []string{"v1", "v2"}
 	}
@@ -261,7 +266,18 @@ func runC14(ctx *core.Ctx, out *core.Out) {
 			conns = append(conns, nc)
 			return nc, nil
 		}
-		c, resp, err := dd.Dial(url, h)
+		dctx := context.Background()
+		if cs.Trace {
+			// every httptrace hook set (to functions that do nothing): tracing must not change the outcome
+			dctx = httptrace.WithClientTrace(dctx, &httptrace.ClientTrace{
+				GetConn: func(string) {}, GotConn: func(httptrace.GotConnInfo) {}, GotFirstResponseByte: func() {},
+				Got100Continue: func() {}, Got1xxResponse: func(int, textproto.MIMEHeader) error { return nil },
+				DNSStart: func(httptrace.DNSStartInfo) {}, DNSDone: func(httptrace.DNSDoneInfo) {}, ConnectStart: func(string, string) {},
+				ConnectDone: func(string, string, error) {}, TLSHandshakeStart: func() {}, TLSHandshakeDone: func(tls.ConnectionState, error) {},
+				WroteHeaderField: func(string, []string) {}, WroteHeaders: func() {}, WroteRequest: func(httptrace.WroteRequestInfo) {},
+			})
+		}
+		c, resp, err := dd.DialContext(dctx, url, h)
 		return c, resp, err, the
 	}
 
@@ -359,7 +375,11 @@ func runC14(ctx *core.Ctx, out *core.Out) {
 		fail("request-line", fmt.Sprintf("request line is %q %q, expected GET %q", h.Method, h.Target, cs.WantTgt), rq)
 		return
 	}
-	if hv := h.Get("Host"); len(hv) != 1 || hv[0] != cs.WantHost {
+	hostOK := func(got string) bool {
+		// an explicitly written default port may be dropped (RFC 6455 4.1); nothing else may change
+		return got == cs.WantHost || (strings.HasSuffix(cs.WantHost, ":80") && got == strings.TrimSuffix(cs.WantHost, ":80"))
+	}
+	if hv := h.Get("Host"); len(hv) != 1 || !hostOK(hv[0]) {
 		fail("host-header", fmt.Sprintf("Host header is %q, expected %q", hv, cs.WantHost), rq)
 		return
 	}
